@@ -172,6 +172,7 @@ def link_copy_agreement(var, dest):
 def build(tier, seed):
     set_tier(tier)
     tasks = [Task(f"{PROP}.S.source_copies", PROP, "Documentation.writeout", lambda: __import__("contracts.plumbing", fromlist=["x"]).source_copies(PROP, lambda: __import__("bounded.c10", fromlist=["x"]).source_links())),
+             Task(f"{PROP}.S.selector_tables", PROP, "NameSelector", lambda: names.selector_tables_private(PROP, lambda: __import__("bounded.c10", fromlist=["x"]).page_files())),
              Task(f"{PROP}.S.ident", PROP, "ident properties", lambda: names.ident_obligation(PROP, lambda: __import__("bounded.c10", fromlist=["x"]).page_files())),
              a_task(PROP, _get_name), a_task(PROP, _anchor), a_task(PROP, _object_page), a_task(PROP, _is_interface_procedure), src_copy_task(),
              Task(f"{PROP}.S.graph_ident", PROP, "FortranGraph.__init__", lambda: names.graph_ident_obligation(PROP, lambda: __import__("bounded.c10", fromlist=["x"]).graph_files()))] + bounded_tasks()
